@@ -85,15 +85,21 @@ class ConvexMonitor(solvex.Monitor):
             x0 = ex.x0
             lo = ex.lo if ex.lo is not None else np.full(ex.n, -1e20)
             hi = ex.hi if ex.hi is not None else np.full(ex.n, 1e20)
-            d0 = max([s.dist(x0) for s in sets] + [float(np.linalg.norm(x0 - np.minimum(np.maximum(x0, lo), hi)))])
-            if d0 > 1e-4:
+            dset = max([s.dist(x0) for s in sets] + [0.0])
+            dbox = float(np.max(np.maximum(np.maximum(lo - x0, x0 - hi), 0.0)))
+            tol0 = ex.dykstra_log[0]["tol"] if ex.dykstra_log else 1e-10
+            # x0 is infeasible if it is outside the bound box at all (the box is exact) or further from a user set than the
+            # sqrt(p*tol) a projection output itself is allowed to be
+            if dbox > 0.0 or dset > np.sqrt(p * tol0):
                 ex.tags.add("x0_infeasible")
+                if max(dbox, dset) <= 1e-4 * max(1.0, float(np.max(np.abs(x0)))):
+                    ex.tags.add("x0_infeasible_by_a_hair")
                 if not ents:
-                    ex.violate("x0_projected", "x0=%s is infeasible (distance %.3g) but the first evaluation at %s is not an output "
-                               "of the projection routine" % (x0.tolist(), d0, x.tolist()))
+                    ex.violate("x0_projected", "x0=%s is infeasible (%.3g outside the box, %.3g from a set) but the first evaluation "
+                               "at %s is not an output of the projection routine" % (x0.tolist(), dbox, dset, x.tolist()))
                     return
             else:
-                if np.max(np.abs(x - x0)) > 1e-7 * max(1.0, float(np.max(np.abs(x0)))) and not ents:
+                if np.max(np.abs(x - x0)) > max(1e-7 * max(1.0, float(np.max(np.abs(x0)))), 2.0 * dset) and not ents:
                     ex.violate("x0_kept", "feasible x0=%s replaced by %s" % (x0.tolist(), x.tolist()))
                 if not ents:
                     return
@@ -140,6 +146,10 @@ class ConvexMonitor(solvex.Monitor):
             ex.tags.add("restarted")
 
 
+def _hair(bp, far, eps):
+    return bp + eps * (far - bp) / max(np.linalg.norm(far - bp), 1e-300)
+
+
 def _on_boundary(s, x):
     if s.t == "ball":
         return abs(np.linalg.norm(x - s.c) - s.r) < 1e-9
@@ -174,8 +184,14 @@ def _configs(tier, salts):
                     far_b = np.array([-3.0, -1.0, 2.0][:n])
                     starts = {"interior": np.array(INTERIOR[:n]), "far": far_a,
                               "boundary_a": _proj_ref(sets, far_a, lo, hi), "boundary_b": _proj_ref(sets, far_b, lo, hi)}
+                    # the two boundary points pushed outwards by a hair (1e-7): infeasible, but "close" to their projection
+                    for nm, far in (("hair_a", far_a), ("hair_b", far_b)):
+                        bp = starts["boundary_" + nm[-1]]
+                        starts[nm] = bp + 1e-7 * (far - bp) / max(np.linalg.norm(far - bp), 1e-300)
                     for sname, x0 in starts.items():
                         for rmode in (("none", "soft") if tier == "quick" else ("none", "soft", "hard_new")):
+                            if sname.startswith("hair") and rmode != "none":
+                                continue
                             for prob in (("rosen", "nzr", "pull") if n == 2 else ("nzr3", "pull")):
                                 if prob == "nzr" and (salt != 0 or tier == "quick") and len(sub) != 2:
                                     continue
@@ -210,7 +226,9 @@ def _configs(tier, salts):
                         # normals and the solution sits at their common vertex (acute corners converge slowly)
                         targets = [np.full(n, 2.0), np.array([-0.2, 4.5, 1.0][:n]), np.array([-3.0, -1.0, 2.0][:n])]
                         for sname, x00, tgt in [(nm, xx, t) for (nm, xx) in (("interior", np.array(INTERIOR[:n])), ("far", np.array([3.0, 2.5, -2.0][:n])),
-                                                                          ("boundary_a", _proj_ref(sets0, np.array([3.0, 2.5, -2.0][:n]), lo, hi)))
+                                                                          ("boundary_a", _proj_ref(sets0, np.array([3.0, 2.5, -2.0][:n]), lo, hi)),
+                                                                          ("hair_a", _hair(_proj_ref(sets0, np.array([3.0, 2.5, -2.0][:n]), lo, hi),
+                                                                                           np.array([3.0, 2.5, -2.0][:n]), 1e-3)))
                                                 for t in (targets if nm == "interior" else targets[:1])]:
                             cfg = {"prob": {"f": "lin", "A": np.eye(n).tolist(), "b": (tgt + off).tolist(), "salt": salt},
                                    "x0": (x00 + off).tolist(), "sets": [translate(specs[i], off) for i in sub],
@@ -233,7 +251,7 @@ def run(report, tier, seed):
     res = solvex.explore(report, MOD, cps, classify=classify)
     tags = res["tags"]
     cov = report.coverage
-    need = ["x0_infeasible", "stopped_by_rule", "inexact_but_within_bound", "eval_on_set_boundary", "nsets=3", "restarted"]
+    need = ["x0_infeasible", "x0_infeasible_by_a_hair", "stopped_by_rule", "inexact_but_within_bound", "eval_on_set_boundary", "nsets=3", "restarted"]
     missing = [t for t in need if not tags.get(t)]
     if missing:
         raise common.HarnessError("C09 exploration is vacuous: %s never occurred" % missing)
